@@ -374,6 +374,18 @@ fn random_case<S: Ora, C: Cv<S>>(t: &mut Tape, cx: &mut Cx) -> CaseResult {
             p[k] = if continuous { S::q(0, 1) + <S as num_traits::NumCast>::from(t.range_f64(-(mag as f64), mag as f64)).unwrap() } else { S::any(t, 10) };
         }
     }
+    // the unit of the control points is arbitrary: scale the whole curve exactly by 2^k in half of the cases
+    if t.bool() {
+        let kmax = if S::NAME == "f32" { 30 } else { 80 };
+        let k = t.int(-kmax, kmax);
+        let f: S = <S as num_traits::NumCast>::from((2.0f64).powi(k as i32)).unwrap();
+        for p in cp.iter_mut() {
+            for x in p.iter_mut() {
+                *x = *x * f;
+            }
+        }
+        cx.label(if k <= -20 { "scaled by 2^-20 or less" } else if k >= 20 { "scaled by 2^20 or more" } else { "scaled by 2^-19..2^19" });
+    }
     let mut nt = false;
     for ax in 0..C::DIM {
         let c: Vec<f64> = cp.iter().map(|p| p[ax].f()).collect();
